@@ -56,6 +56,7 @@ def dec(c):
 
 
 def writer_loop(storage, conn):
+    storage.reader_only = False     # (the parent may have declared itself a reader before this process was forked)
     try:
         while True:
             cmd = conn.recv()
@@ -133,6 +134,11 @@ def run_seq(case, ctx):
         writers = Writers(s)
         ref = {}
         flushed = False
+        ro = bool(nw and case.get("parent_reader_only"))
+        if ro:
+            # the parent only reads (all stores go through the writer processes): it declares itself a reader, as reader processes do
+            s.reader_only = True
+            ctx.label("parent-is-reader-only")
         try:
             if presize:
                 ctx.label("pre-sized")
@@ -187,6 +193,8 @@ def run_seq(case, ctx):
                         s.open()
                     else:
                         s.close()   # drops the parent's read handles
+                        if ro:
+                            s.open()    # a no-op for a reader; the next read opens its own handles again
                 elif k == "flush":
                     writers.close_all()
                     s.close()
@@ -355,9 +363,16 @@ def run_case(case, ctx):
 
 def strategies(tier):
     big = tier == "thorough"
+    # spliced-in segments "store two ids through one writer - parent reads the first - close/reopen - parent reads the second":
+    # a remembered read position that survives close() (round 17) needs two reads around the reopen with nothing in between
+    code = st.integers(0, 2 ** 24 - 1)
+    seg = st.one_of(code.map(lambda c: [dec(c)]),
+                    st.tuples(st.integers(0, 2), st.integers(0, 9), st.integers(0, 9)).map(
+                        lambda t: [["store", t[0], t[1], "#1 first"], ["store", t[0], t[2], "#2 second é"], ["read", 0, t[1]], ["reopen"], ["read", 0, t[2]]]))
+    seg_ops = st.lists(seg, min_size=1, max_size=8).map(lambda ss: [o for sg in ss for o in sg])
     seq = st.fixed_dictionaries({"kind": st.just("seq"), "writers": st.sampled_from([0, 0, 1, 2, 3]),
-                                 "presize": st.one_of(st.none(), st.none(), st.integers(0, 8)),
-                                 "ops": st.one_of(codes(1, 8), codes(6, 24)).map(lambda cs: [dec(c) for c in cs])})
+                                 "presize": st.one_of(st.none(), st.none(), st.integers(0, 8)), "parent_reader_only": st.booleans(),
+                                 "ops": st.one_of(codes(1, 8).map(lambda cs: [dec(c) for c in cs]), codes(6, 24).map(lambda cs: [dec(c) for c in cs]), seg_ops)})
     real = st.fixed_dictionaries({"kind": st.just("real-conc"),
                                   "writers": st.lists(st.lists(st.integers(0, 30), min_size=3, max_size=12), min_size=1, max_size=3),
                                   "readers": st.lists(st.lists(st.integers(0, 31), min_size=1, max_size=8), min_size=1, max_size=2),
